@@ -153,6 +153,14 @@ public:
 	// the destination; the .inf file still records the DFS name.
 	std::replace(output_basename.begin(), output_basename.end(), '/', '_');
 	const string output_body_file = dest_dir + output_basename;
+	if (is_image_file(ctx, output_body_file)
+	    || is_image_file(ctx, output_body_file + ".inf"))
+	  {
+	    std::cerr << "extract-all: not extracting " << output_origname
+		      << " because that would overwrite the image file "
+		      << output_body_file << "\n";
+	    return false;
+	  }
 
 	std::ofstream outfile(output_body_file, std::ofstream::out);
 	if (!outfile.good())
